@@ -26,7 +26,7 @@ def gen_case(rng):
     spec = X.gen_spec(rng, max_groups=2, max_lrns=3, max_vals=2)
     # favour stateful learners: any state carried between evaluations changes their action sequence
     for l in spec["lrns"]:
-        if rng.random() < .6: l["kind"] = rng.choice(["stateful-ap", "stateful-kw", "stateful-pmf", "stateful-a"])
+        if rng.random() < .6: l["kind"] = rng.choice(["stateful-ap", "stateful-kw", "stateful-pmf", "stateful-a", "stateful-info", "stateful-info"])
     for g in spec["groups"]:
         g["filters"] = [f for f in g["filters"] if f[0] != "sleepy"]
     faults, kind = {}, "none"
